@@ -3,8 +3,8 @@ import Witverif.Text.Heck
 /-
 Model of the C backend's identifier mangling (crates/c/src/lib.rs):
 
-* `toCIdent` = `to_c_ident`: exact (case-sensitive) lookup of the WIT name in the literal escape
-  table (regenerated from the source by tools/gen_cident.py), otherwise `to_snake_case`;
+* `toCIdent` = `to_c_ident`: `to_snake_case`, then lookup of the snake-cased name in the literal
+  escape table (regenerated from the source by tools/gen_cident.py);
 * `cFuncName` = `c_func_name` (`<ns>_<snake(func)>`, `.` → `_`), `cTypeName` (`<ns>_<snake>_t`),
   `cFreeName` (`<ns>_<snake>_free`, `define_dtor`), `cDropOwnName` (`<ns>_<snake>_drop_own`).
 
@@ -22,7 +22,7 @@ def lookup (t : List (List Char × List Char)) (name : List Char) : Option (List
 
 /-- `to_c_ident` -/
 def toCIdent (name : List Char) : List Char :=
-  match lookup Witverif.Generated.CIdent.escapeTable name with
+  match lookup Witverif.Generated.CIdent.escapeTable (Heck.snake name) with
   | some v => v
   | none => Heck.snake name
 
